@@ -26,7 +26,7 @@ ULETTERS = [0.3, 0.7]
 
 def configs(tier, seed):
     thorough = tier == "thorough"
-    structs = [(1, 1, 1), (2, 2, 1)] if not thorough else [(1, 1, 1), (2, 1, 1), (2, 2, 1), (1, 2, 2)]
+    structs = [(1, 1, 1), (2, 2, 1), (1, 1, 2)] if not thorough else [(1, 1, 1), (2, 1, 1), (2, 2, 1), (1, 1, 2), (1, 2, 2), (2, 1, 3)]
     out = []
     for wt in ("restricted", "unrestricted"):
         for entry in AD_ENTRIES:
@@ -40,16 +40,24 @@ def configs(tier, seed):
 
 
 def obs_basis(n, wt):
-    """Complete basis of symmetric observables in the shape the driver uses: (n,n) for restricted runs,
-    (2,n,n) (per spin) for unrestricted ones."""
+    """Complete basis of observable matrices in the shape the driver uses: (n,n) for restricted runs, (2,n,n) (per
+    spin) for unrestricted ones.  Symmetric units E_pq + E_qp decide every symmetric observable; the one-sided
+    units E_pq (p < q) are added because the estimator is a function of ANY matrix added to h1 (the library
+    symmetrises only in some places), and jvp == finite difference must hold for that function too."""
     out = []
-    for (p, q), M in al.sym_basis(n):
+    units = [("s%d%d" % (p, q), M) for (p, q), M in al.sym_basis(n)]
+    for p in range(n):
+        for q in range(p + 1, n):
+            M = np.zeros((n, n))
+            M[p, q] = 1.0
+            units.append(("u%d%d" % (p, q), M))
+    for (lab, M) in units:
         if wt == "restricted":
-            out.append(("O[%d%d]" % (p, q), np.array([M, M])))
+            out.append(("O[%s]" % lab, np.array([M, M])))
         else:
             Z = np.zeros_like(M)
-            out.append(("Oa[%d%d]" % (p, q), np.array([M, Z])))
-            out.append(("Ob[%d%d]" % (p, q), np.array([Z, M])))
+            out.append(("Oa[%s]" % lab, np.array([M, Z])))
+            out.append(("Ob[%s]" % lab, np.array([Z, M])))
     return out
 
 
@@ -249,7 +257,7 @@ def job_2rdm(cfg, res, B, samp, pd0, tang, S, sysd, wrapper, sig):
 def run(ctx):
     ctx.rule = ("cells = AD entry point {ad, ad_nosr, ad_norot, ad_nosr_norot (+ 2-RDM ad_1 thorough)} x walker type x block structure "
                 "x {interacting, one-body limit}; inside each cell EVERY virtual-RNG stream (all words over field letters {0,+-1.5} on "
-                "3 (4) draw positions x comb-offset letters {0.3,0.7}) x the COMPLETE basis of symmetric observables (per spin for "
+                "3 (4) draw positions x comb-offset letters {0.3,0.7}) x the complete basis of symmetric observables plus the one-sided units E_pq (per spin for "
                 "unrestricted runs); jvp/vjp called exactly as driver.afqmc does; state = (cell, stream, observable)")
     ctx.assume("derivatives are linear in the observable, so the basis decides every observable")
     ctx.assume("finite-difference comparison only where the primal itself is smooth (two FD steps agree); skipped streams are counted")
